@@ -57,7 +57,7 @@ func init() {
 }
 
 var c14LoadFaultKinds = []string{
-	"sig-corrupt", "sig-wrong-key", "sig-drop", "sig-extra", "disallow", "disallow", "other-room", "strip-state-key",
+	"sig-corrupt", "sig-wrong-key", "sig-drop", "sig-extra", "wire-padded", "disallow", "disallow", "other-room", "strip-state-key",
 	"truncate", "malformed", "null", "long-room-id", "type-cp", "type-bytes", "big-event",
 }
 
